@@ -1032,10 +1032,129 @@ fn child_work(d: usize, kind: &str, abv: usize, text: &str) -> Result<String, St
     }
 }
 
+
+// ---------------------------------------------------------------------------
+// far over the limit: one construct (or a pair) repeated so often that the excess over the limit crosses the
+// widths of narrow counters (2^8, 2^16, 2^17).  A nesting count kept in, or passed through, a narrower integer
+// wraps around there; by the property every one of these inputs has nesting > d and must be rejected.
+
+const FAR_UNITS: [(&str, &str, usize); 7] = [("(", ")", 1), ("not ", "", 1), ("!", "", 1), ("b2b(", ")", 1), ("!(", ")", 2), ("any(b2a(", "))", 2), ("not not(", ")", 3)];
+const FAR_LIMITS: [usize; 6] = [0, 1, 7, 128, 255, 256];
+
+fn far_depths(d: usize) -> Vec<usize> {
+    let mut v = vec![d + 1, d + 2, d + 255, d + 256, d + 257, 65535, 65536, 65537, d + 65535, d + 65536, d + 65537, 131072, 131072 + d, 131073 + d, 196608 + d];
+    v.retain(|x| *x > d);
+    v.sort();
+    v.dedup();
+    v
+}
+
+fn far_text(unit: usize, levels: usize, value: bool) -> (String, usize) {
+    let (pre, suf, per) = FAR_UNITS[unit % FAR_UNITS.len()];
+    let n = levels.div_ceil(per);
+    let mut t = String::with_capacity(n * (pre.len() + suf.len()) + 16);
+    if value {
+        t.push_str("b2b(");
+    }
+    for _ in 0..n {
+        t.push_str(pre);
+    }
+    t.push('t');
+    for _ in 0..n {
+        t.push_str(suf);
+    }
+    if value {
+        t.push(')');
+    }
+    (t, n * per + value as usize)
+}
+
+/// One case = one limit d and one unit: every far depth, as a filter and as a value expression, parsed in a child
+/// process (an engine that accepted such an input would recurse that deep).
+fn far_case(ch: &mut Choices<'_>, st: &mut Stats) -> CaseResult {
+    let d = FAR_LIMITS[ch.draw(FAR_LIMITS.len())];
+    let unit = ch.draw(FAR_UNITS.len());
+    let mut lines = String::new();
+    let mut specs = Vec::new();
+    for levels in far_depths(d) {
+        for value in [false, true] {
+            let (_, depth) = far_text(unit, levels, value);
+            lines.push_str(&format!("{d}\t{unit}\t{levels}\t{}\n", value as u8));
+            specs.push((levels, value, depth));
+        }
+    }
+    let (code, sig, out, err) = spawn_child(&["c13", "far"], &[], Some(lines.as_bytes()));
+    let unit_text = format!("{}t{}", FAR_UNITS[unit].0, FAR_UNITS[unit].1);
+    let show = |extra: Value| json!({"max_nesting_depth": d, "repeated_unit": unit_text, "detail": extra});
+    st.evals_n(specs.len() as u64);
+    st.class(&format!("far-limit-{d}"));
+    st.class(&format!("far-unit-{}", FAR_UNITS[unit].0.trim()));
+    let out = String::from_utf8_lossy(&out).to_string();
+    let got: Vec<&str> = out.lines().collect();
+    if code != Some(0) || got.len() != specs.len() {
+        let tail = String::from_utf8_lossy(&err);
+        let tail: String = tail.chars().rev().take(400).collect::<String>().chars().rev().collect();
+        let (levels, value, depth) = specs.get(got.len()).copied().unwrap_or((0, false, 0));
+        return Err(Fail::new(
+            "far-over-limit-abnormal-exit",
+            format!("parsing the unit repeated to nesting {depth} (requested {levels}, value expression: {value}) with limit {d} ended abnormally (exit code {code:?}, signal {sig:?}) instead of returning an error"),
+            show(json!({"stderr_tail": tail, "answers_before": got.len()})),
+        ));
+    }
+    for (g, (levels, value, depth)) in got.iter().zip(&specs) {
+        st.nontrivial(&(d, unit, levels, value));
+        if *g != "REJ" {
+            return Err(Fail::new(
+                if g.starts_with("ACC") { "far-over-limit-accepted" } else { "far-over-limit-panic" },
+                format!("limit {d}: the unit repeated to nesting {depth} (value expression: {value}) was not rejected: {g}"),
+                show(json!({"nesting": depth})),
+            ));
+        }
+    }
+    st.sample("far", || json!({"max_nesting_depth": d, "repeated_unit": unit_text, "nestings": specs.iter().map(|s| s.2).collect::<Vec<_>>()}));
+    Ok(())
+}
+
+fn far_child() -> i32 {
+    use std::io::Read;
+    let mut input = String::new();
+    if std::io::stdin().read_to_string(&mut input).is_err() {
+        return 2;
+    }
+    let _ = &*SCHEME;
+    for line in input.lines() {
+        let p: Vec<usize> = line.split('\t').filter_map(|x| x.parse().ok()).collect();
+        if p.len() != 4 {
+            println!("ERR bad line");
+            continue;
+        }
+        let (d, unit, levels, value) = (p[0], p[1], p[2], p[3] == 1);
+        // the unchanged engine gives up at level d + 1; the stack is only there so that an engine that does not
+        // answers "accepted" instead of dying (reserved, not touched)
+        let h = std::thread::Builder::new().stack_size(3 << 30).spawn(move || {
+            std::panic::catch_unwind(|| {
+                let (text, _) = far_text(unit, levels, value);
+                let parser = parser_for(&SCHEME, d, &text);
+                if value { parser.parse_value(&text).map(|_| ()).map_err(|e| e.to_string()) } else { parser.parse(&text).map(|_| ()).map_err(|e| e.to_string()) }
+            })
+        });
+        match h.map(|h| h.join()) {
+            Ok(Ok(Ok(Ok(())))) => println!("ACC"),
+            Ok(Ok(Ok(Err(_)))) => println!("REJ"),
+            Ok(Ok(Err(p))) | Ok(Err(p)) => println!("PANIC {}", panic_message(&p).replace('\n', " | ")),
+            Err(e) => println!("ERR cannot spawn thread: {e}"),
+        }
+    }
+    0
+}
+
 /// `wfcheck --child c13 stack <KiB per level>` (`args` = what follows "c13");
 /// stdin: lines `d \t F|V \t abv \t text`.
 pub fn child(args: &[String]) -> i32 {
     use std::io::Read;
+    if args.first().map(|s| s.as_str()) == Some("far") {
+        return far_child();
+    }
     if args.first().map(|s| s.as_str()) != Some("stack") {
         return 2;
     }
@@ -1084,6 +1203,7 @@ pub fn subs() -> Vec<Sub> {
         Sub { name: "positions", f: Box::new(positions_case) },
         Sub { name: "deep", f: Box::new(deep_case) },
         Sub { name: "stack", f: Box::new(stack_case) },
+        Sub { name: "far", f: Box::new(far_case) },
     ]
 }
 
@@ -1098,6 +1218,7 @@ pub fn run(run: &Run) {
          deep: random shapes of depth d-1, d, d+1 for d in {16, 64, 128 (default parser, no setter), 129, 200}, 1/4 of them through parse_value; \
          stack: 4 filters + 2 value expressions of depth exactly d in {16, 64, 128, 200} parsed, serialised, hashed, cloned, compiled, executed and dropped on a \
          thread with a stack of 64 KiB x (d + 8) in a child process; \
+         far: one construct or pair ( \"(\", \"not \", \"!\", \"b2b(\", \"!(\", \"any(b2a(\", \"not not(\" ) repeated to nesting d+1, d+2, d+255..257, 65535..65537, d+65535..65537, 131072(+d), 196608+d for d in {0,1,7,128,255,256}, as a filter and inside one more call through parse_value, complete, in a child process: every one must be rejected (counter wrap-around); \
          oracle: Ok iff depth <= d, otherwise the nesting error; accepted filters evaluate to the value known by construction; \
          non-trivial = depth in {d, d+1} and the shape uses >= 2 kinds of nesting construct; distinct by (text, d)",
     );
@@ -1134,5 +1255,11 @@ pub fn run(run: &Run) {
         let seed = run.seed;
         let key = move |i: u64| -> Vec<u32> { (0..2600u32).map(|j| fingerprint(&(seed, i, j)) as u32).collect() };
         run.enumerate("stack", run.tier.pick(32, 640), &key, &*f("stack").f);
+    }
+    if want("far") {
+        // complete: every limit x every unit (each case covers every far depth, as a filter and as a value expression)
+        let total = (FAR_LIMITS.len() * FAR_UNITS.len()) as u64;
+        let key = |i: u64| -> Vec<u32> { vec![(i % FAR_LIMITS.len() as u64) as u32, (i / FAR_LIMITS.len() as u64) as u32] };
+        run.enumerate("far", total, &key, &*f("far").f);
     }
 }
